@@ -497,17 +497,12 @@ Fixpoint typed_value (D : mdesc) (fuel : nat) (v : value) {struct fuel} : bool :
   end.
 
 (* ---------------------------------------------------------------- inherited namespaces *)
-(* Two excluded classes (each refuted in Properties/C03b.v), both about a class that states
-   no namespace of its own:
-   * cache_consistent — XmlContext.cache is keyed by the class alone: `pns c` is the parent
-     namespace under which class c's metadata was first built; every occurrence of c must be
-     handed that same namespace by the serializer (it hands down the namespace of the
-     enclosing ELEMENT's qualified name);
-   * inherit_consistent — the serializer hands down the namespace of the enclosing element,
-     the documentation (and the parser) the namespace of the enclosing CLASS: they must
-     coincide wherever a namespace-less class occurs. *)
+(* One excluded class (refuted in Properties/C03b.v), about a class that states no namespace of
+   its own: XmlContext.cache is keyed by the class alone.  `pns c` is the parent namespace under
+   which class c's metadata was first built; every occurrence of c must sit in a class of that
+   same namespace (the serializer, like the parser, hands down the enclosing CLASS namespace). *)
 Fixpoint cache_consistent (D : mdesc) (pns : cls -> option str) (fuel : nat) (ctx : option str)
-         (over : option qname) (v : value) {struct fuel} : bool :=
+         (v : value) {struct fuel} : bool :=
   match fuel, v with
   | S k, VObj c fs =>
       match find_cdesc D c with
@@ -515,56 +510,12 @@ Fixpoint cache_consistent (D : mdesc) (pns : cls -> option str) (fuel : nat) (ct
       | Some cd =>
           (match cd_meta_ns cd with Some _ => true | None => ostr_eqb (some_ns (pns c)) ctx end)
           && let cns := class_ns cd ctx in
-             let q := match over with Some q => q | None => clark cns (class_local cd) end in
-             let handed := ns_of q in                 (* EventGenerator.convert_dataclass: split_qname(qname) *)
              forallb (fun f =>
-                let fq := field_qname f cns in
-                let sub := fun x => match x with VObj _ _ => cache_consistent D pns k handed (Some fq) x | _ => true end in
+                let sub := fun x => match x with VObj _ _ => cache_consistent D pns k cns x | _ => true end in
                 match lookup fs (fd_name f) with
                 | VList _ l => forallb sub l
                 | x => sub x
                 end) (cd_fields cd)
-      end
-  | _, _ => false
-  end.
-
-Fixpoint inherit_consistent (D : mdesc) (fuel : nat) (handed ctx : option str)
-         (over : option qname) (v : value) {struct fuel} : bool :=
-  match fuel, v with
-  | S k, VObj c fs =>
-      match find_cdesc D c with
-      | None => false
-      | Some cd =>
-          (match cd_meta_ns cd with Some _ => true | None => ostr_eqb handed ctx end)
-          && let cns := class_ns cd ctx in
-             let q := match over with Some q => q | None => clark cns (class_local cd) end in
-             forallb (fun f =>
-                let fq := field_qname f cns in
-                let sub := fun x => match x with VObj _ _ => inherit_consistent D k (ns_of q) cns (Some fq) x | _ => true end in
-                match lookup fs (fd_name f) with
-                | VList _ l => forallb sub l
-                | x => sub x
-                end) (cd_fields cd)
-      end
-  | _, _ => false
-  end.
-
-(* ---------------------------------------------------------------- nillable lists of token lists *)
-(* excluded class (refuted in Properties/C03b.v): an EMPTY list in a nillable field holding a
-   list of token lists is rendered as one xsi:nil element instead of no element at all *)
-Fixpoint token_lists_ok (D : mdesc) (fuel : nat) (v : value) {struct fuel} : bool :=
-  match fuel, v with
-  | S k, VObj c fs =>
-      match find_cdesc D c with
-      | None => false
-      | Some cd =>
-          forallb (fun f =>
-             let sub := fun x => match x with VObj _ _ => token_lists_ok D k x | _ => true end in
-             match lookup fs (fd_name f) with
-             | VList _ [] => negb (fd_tokens f && fd_list f && fd_nillable f)
-             | VList _ l => forallb sub l
-             | x => sub x
-             end) (cd_fields cd)
       end
   | _, _ => false
   end.
